@@ -23,6 +23,8 @@ pub struct RustDocument {
     pub(crate) soap_ports: Vec<Rc<SoapPort>>,
     pub(crate) soap_bindings: Vec<Rc<SoapBinding>>,
     pub(crate) soap_services: Vec<SoapService>,
+    /// names whose definition is currently being read through the tree-search fallback (guards against cyclic definitions)
+    pub(crate) resolving: Vec<String>,
 }
 
 impl RustDocument {
@@ -57,6 +59,7 @@ impl RustDocument {
             soap_ports: Vec::new(),
             soap_bindings: Vec::new(),
             soap_services: Vec::new(),
+            resolving: Vec::new(),
         }
     }
 
@@ -154,8 +157,16 @@ impl RustDocument {
             return Some(rust_node.clone());
         }
 
-        let alt_node = try_to_find_node_by_xml_name_in_xml_doc(start_node, xml_name, namespace, self).ok()?;
-        Some(alt_node.into())
+        // a definition that (directly or indirectly) refers to itself while it is being read cannot be resolved
+        if self.resolving.iter().any(|name| name == xml_name) {
+            return None;
+        }
+
+        self.resolving.push(xml_name.to_string());
+        let alt_node = try_to_find_node_by_xml_name_in_xml_doc(start_node, xml_name, namespace, self);
+        self.resolving.pop();
+
+        Some(alt_node.ok()?.into())
     }
 
     pub fn find_message_by_xml_name(&self, xml_name: &str, _namespace: Option<&Namespace>) -> Option<&Rc<SoapMessage>> {
